@@ -109,6 +109,7 @@ def _cases(draw, tier):
     # the same size and modification time (an earlier archive of a period that was re-generated; rsync -t); cp and mv
     # replace them
     case["predest"] = case["cmd"] in ("cp", "mv") and draw(st.integers(0, 3)) == 0
+    case["rosrc"] = draw(st.integers(0, 3)) == 0  # (cp / ln only) the source tree is read-only
     case["prelink"] = draw(st.sampled_from([None, None, None, None, "ln", "lnsym", "self", "same"])) if case["cmd"] == "cp" and not case["xdev"] else None
     return case
 
@@ -316,12 +317,27 @@ def _run_case(case):
                 res.fail("source-changed:cp-onto-links", "%s (cp %s)" % (treeutil.diff(before, after), "was refused: %r" % (refused,) if refused else "ran"))
             res.evaluations += len(expected)
             return res
+        ro_dirs = []
+        from vlib import unpriv
+        if case.get("rosrc") and case["cmd"] in ("cp", "ln", "lnsym") and not case.get("arrive") and not case.get("predest") and unpriv.ENFORCED:
+            # the source is an archive that nobody may modify: files r--r--r--, directories r-xr-xr-x.  Copying and
+            # linking only read it
+            res.cls("read-only-source")
+            for dp_, dn_, fn_ in os.walk(top):
+                for f_ in fn_:
+                    if not os.path.islink(os.path.join(dp_, f_)):
+                        os.chmod(os.path.join(dp_, f_), 0o444)
+                ro_dirs.append(dp_)
+            for dp_ in ro_dirs:
+                os.chmod(dp_, 0o555)
         try:
             with contextlib.redirect_stdout(io.StringIO()), contextlib.redirect_stderr(io.StringIO()):
                 try:
                     drf_command.main(argv)
                 finally:
                     shutil.copy2, shutil.move, os.link, os.symlink = real_fns["copy2"], real_fns["move"], real_fns["link"], real_fns["symlink"]
+                    for dp_ in ro_dirs:
+                        os.chmod(dp_, 0o755)
         except SystemExit as e:
             res.fail("command-exit", "argv %r exit %r" % (argv[:1] + argv[3:], e.code))
             return res
@@ -428,7 +444,7 @@ def run_case(case):
 def shrink_candidates(case):
     for key, val in (("chs", None), ("only", False), ("reverse", False), ("start", None), ("end", None), ("drfprops", None),
                      ("dmdprops", None), ("tfmt", "iso"), ("drf", True), ("dmd", True), ("xdev", False), ("symlink", False), ("arrive", None),
-                     ("chform", "plain"), ("destlink", False), ("prelink", None), ("predest", False)):
+                     ("chform", "plain"), ("destlink", False), ("prelink", None), ("predest", False), ("rosrc", False)):
         if key not in case:
             continue
         if case[key] != val:
